@@ -9,6 +9,7 @@ CONSTANTS
   XDepth = 1
   SelfDepth = 2
   FormDepth = 2
+  HeapDepth = 3
   Wide = FALSE
   EmitCases = FALSE
 INIT Init
